@@ -295,6 +295,22 @@ func TestC02(t *testing.T) {
 			j := c02Junk(rng)
 			add(j, "junk:"+j)
 		}
+		// blank padding around single records and batches: every string of <= 2 blanks (JSON white
+		// space plus VT / FF, which bytes.TrimSpace strips but JSON rejects) before, a few after
+		blanks := []string{" ", "\t", "\n", "\r", "\v", "\f"}
+		pads := []string{"", " \r\n\t "}
+		for _, a := range blanks {
+			pads = append(pads, a)
+			for _, b := range blanks {
+				pads = append(pads, a+b)
+			}
+		}
+		for _, pre := range pads {
+			for _, post := range []string{"", "\n", " \r\n"} {
+				add(pre+`[{"jsonrpc":"2.0","id":1,"method":"ok"},{"jsonrpc":"2.0","method":"ok"},{"jsonrpc":"2.0","id":2,"method":"nope"}]`+post, fmt.Sprintf("padbatch:%q:%q", pre, post))
+				add(pre+`{"jsonrpc":"2.0","id":1,"method":"ok"}`+post, fmt.Sprintf("padsingle:%q:%q", pre, post))
+			}
+		}
 	}
 
 	// run: group by push setting, one server each, all inside one bubble
